@@ -65,6 +65,8 @@ MinOf(S) == CHOOSE x \in S : \A y \in S : x <= y
 IsDictLike(s, n) == s.kind[n] \in {"dict", "obj", "objb"}
 IsObj(s, n) == s.kind[n] \in {"obj", "objb"}
 PH == 150                        \* a search-space placeholder leaf (pg.oneof)
+RF == 160                        \* an explicit reference leaf (pg.Ref to a shared non-symbolic object)
+Opaque == {PH, RF}               \* leaves that are symbolic objects of their own: every write stores a NEW object
 \* test classes: A(x = None, y = None); B(z required -- no default, w = None), created with B.partial()
 DefaultOf(k, key) == IF k = "objb" /\ key = 1 THEN MISSING ELSE PNONE
 
@@ -206,7 +208,7 @@ WriteD(s, n, k, vd) ==
               f == Formalize(s0, n, k, vd, FALSE)
               s1 == IF i = 0 THEN [f.s EXCEPT !.ditems[n] = Append(@, <<k, f.v>>)]
                     ELSE [f.s EXCEPT !.ditems[n][i] = <<k, f.v>>]
-          IN IF old = vd /\ vd # PH THEN [ok |-> TRUE, s |-> s, ups |-> NoUpd]  \* the same (pooled) leaf object: no update; a placeholder is always a new object
+          IN IF old = vd /\ vd \notin Opaque THEN [ok |-> TRUE, s |-> s, ups |-> NoUpd]  \* the same (pooled) leaf object: no update; an opaque leaf is always a new object
              ELSE [ok |-> f.ok, s |-> s1, ups |-> <<Upd(n, k, old, f.v)>>]
 
 \* --- write primitive of a list: idx is a 0-based position (>= len appends); ins = insertion
@@ -219,7 +221,7 @@ WriteL(s, n, idx, vd0) ==
      ELSE IF ~OkTarget(s, n, vd) THEN [ok |-> FALSE, s |-> s, ups |-> NoUpd]
      ELSE IF at < len /\ ~ins THEN
        LET old == s.litems[n][at + 1] IN
-       IF old = vd /\ vd # PH THEN [ok |-> TRUE, s |-> s, ups |-> NoUpd]
+       IF old = vd /\ vd \notin Opaque THEN [ok |-> TRUE, s |-> s, ups |-> NoUpd]
        ELSE IF vd = MISSING THEN
             LET s0 == Detach(s, old) IN
             [ok |-> TRUE, s |-> Reindex([s0 EXCEPT !.litems[n] = RemoveIdx(@, at + 1)], n),
@@ -484,7 +486,7 @@ SortPV(pvs) ==  \* descending by first key (only used for list-rooted rebinds wi
 RebindOne(s, n, path, vd) ==    \* [ok, s, ups, err]
   LET holder == Lookup(s, n, SubSeq(path, 1, Len(path) - 1))
       key == path[Len(path)]
-  IN IF Len(path) = 2 /\ (\E kv \in Slot(s, n) : kv[1] = path[1] /\ kv[2] = PH)
+  IN IF Len(path) = 2 /\ (\E kv \in Slot(s, n) : kv[1] = path[1] /\ kv[2] \in Opaque)
      THEN [ok |-> FALSE, s |-> s, ups |-> NoUpd, err |-> "none"]      \* paths into a placeholder object: not generated
      ELSE IF holder = NULL \/ ~IsRef(holder) THEN [ok |-> TRUE, s |-> s, ups |-> NoUpd, err |-> "KeyError"]
      ELSE IF TreatSealed(s, holder) THEN [ok |-> TRUE, s |-> s, ups |-> NoUpd, err |-> "WPE"]
@@ -657,7 +659,7 @@ NextList(n) ==
            \/ ListClear(n))
      \/ Has("perm") /\ (ListReverse(n) \/ ListSort(n))
      \/ Has("inplace") /\ (\/ \E vds \in P((SeqsUpTo(VD, 2)) \ {<<>>}) : ListExtend(n, vds, TRUE)
-                            \/ \E k \in P({0, 2}) : ListIMul(n, k))
+                            \/ \E k \in P({0, 2, 3}) : ListIMul(n, k))
      \/ Has("slice") /\ \E a \in P(Bnd), b \in P(Bnd), c \in P(Steps) :
                           (ListDelSlice(n, a, b, c) \/ \E vds \in P(SeqsUpTo(SmallVD, 2)) : ListSetSlice(n, a, b, c, vds))
 NextAny(n) ==
